@@ -12,6 +12,11 @@ Next == Len(bnd) + 1 < MaxN /\ \E x \in Labels : bnd' = Append(bnd, x)
 \* texts cycle through 1-, 2-, 3- and 4-byte characters so that character spans differ from byte spans
 Cycle == <<97, 167, 12354, 128512>>
 TextFor(n) == [i \in 1..n |-> Cycle[((i - 1) % 4) + 1]]
+\* a second text made of the tokenized format's own special characters (space, slash, backslash) and a multi-byte one
+CycleB == <<47, 32, 92, 12354, 32>>
+TextForB(n) == [i \in 1..n |-> CycleB[((i - 1) % 5) + 1]]
+SentForB(b) == [text |-> TextForB(Len(b) + 1), bnd |-> b, ntags |-> 1,
+                tags |-> [i \in 1..(Len(b) + 1) |-> <<<<47, 64 + i, 32>>>>]]
 \* one tag category; the tag of character i is the single letter chr(64 + i)
 SentFor(b) == [text |-> TextFor(Len(b) + 1), bnd |-> b, ntags |-> 1,
                tags |-> [i \in 1..(Len(b) + 1) |-> <<<<64 + i>>>>]]
@@ -21,5 +26,6 @@ PartitionOk == (\A i \in 1..Len(bnd) : bnd[i] # LU) => Partition(bnd)
 \* every reported token is a maximal segment; segments containing an unknown label are not reported
 RefSound == \A k \in 1..Len(RefTokens(bnd)) : IsToken(bnd, RefTokens(bnd)[k][1], RefTokens(bnd)[k][2])
 
-Emit == EmitCases => PrintT(<<"CASE", ToJson([sent |-> SentFor(bnd), tokens |-> TokenRecords(SentFor(bnd))])>>)
+Emit == EmitCases => /\ PrintT(<<"CASE", ToJson([sent |-> SentFor(bnd), tokens |-> TokenRecords(SentFor(bnd))])>>)
+                     /\ PrintT(<<"CASE", ToJson([sent |-> SentForB(bnd), tokens |-> TokenRecords(SentForB(bnd))])>>)
 =============================================================================
